@@ -158,6 +158,66 @@ func init() {
 			}
 		}
 		walk(clause.Body, nil, false)
+		// what the deferred function does when the function argument panics:
+		//   defer func() { if r := recover(); r != nil { <stmts> } }()
+		// actions: 1 hand the slot back, 2 close, 6 panic again (leaves Do)
+		var panicPath []int
+		foundDefer := false
+		for _, st := range fd.Body.List {
+			ds, ok := st.(*ast.DeferStmt)
+			if !ok {
+				continue
+			}
+			fl, ok := ds.Call.Fun.(*ast.FuncLit)
+			if !ok {
+				fail("%s: %s: deferred call is not a function literal", it.File, it.Func)
+			}
+			for _, ist := range fl.Body.List {
+				ifs, ok := ist.(*ast.IfStmt)
+				if !ok || ifs.Init == nil {
+					fail("%s: %s: deferred function: statement other than `if r := recover(); r != nil`", it.File, it.Func)
+				}
+				as, ok := ifs.Init.(*ast.AssignStmt)
+				isRecover := false
+				if ok && len(as.Rhs) == 1 {
+					if c, ok := as.Rhs[0].(*ast.CallExpr); ok {
+						if id, ok := c.Fun.(*ast.Ident); ok && id.Name == "recover" {
+							isRecover = true
+						}
+					}
+				}
+				if !isRecover || ifs.Else != nil {
+					fail("%s: %s: deferred function: not the recover pattern", it.File, it.Func)
+				}
+				foundDefer = true
+				for _, bst := range ifs.Body.List {
+					switch b := bst.(type) {
+					case *ast.SendStmt:
+						if !isChan(b.Chan) {
+							fail("%s: %s: deferred function sends on another channel", it.File, it.Func)
+						}
+						panicPath = append(panicPath, 1)
+					case *ast.ExprStmt:
+						c, ok := b.X.(*ast.CallExpr)
+						if !ok {
+							fail("%s: %s: deferred function: unrecognised statement", it.File, it.Func)
+						}
+						if id, ok := c.Fun.(*ast.Ident); ok && id.Name == "panic" {
+							panicPath = append(panicPath, 6)
+						} else if id, ok := c.Fun.(*ast.Ident); ok && id.Name == "close" && len(c.Args) == 1 && isChan(c.Args[0]) {
+							panicPath = append(panicPath, 2)
+						} else {
+							fail("%s: %s: deferred function: unrecognised call", it.File, it.Func)
+						}
+					default:
+						fail("%s: %s: deferred function: statement of kind %T", it.File, it.Func, bst)
+					}
+				}
+			}
+		}
+		if !foundDefer {
+			panicPath = []int{6} // no recover: the panic leaves Do at once
+		}
 		render := func(ps [][]int) string {
 			var parts []string
 			for _, p := range ps {
@@ -172,6 +232,8 @@ func init() {
 		x.Printf("(* %s: %s.%s, control paths after the receive from %s.%s (0 call f, 1 hand back, 2 close, 3 store, 4 return, 5 next round) *)\n",
 			it.File, it.Recv, it.Func, recvName, it.Name)
 		x.Printf("Definition %s_taken : list (list N) := %s.\n", coqName(it), render(taken))
-		x.Printf("Definition %s_closed : list (list N) := %s.\n\n", coqName(it), render(closed))
+		x.Printf("Definition %s_closed : list (list N) := %s.\n", coqName(it), render(closed))
+		x.Printf("(* when the function argument panics (deferred recover): 1 hand back, 2 close, 6 panic again *)\n")
+		x.Printf("Definition %s_panic : list (list N) := %s.\n\n", coqName(it), render([][]int{panicPath}))
 	}
 }
